@@ -148,8 +148,8 @@ func (fv *FuncVC) specEval(n SNode, sc *SpecScope) Val {
 	case *SQuant:
 		c := sc.child()
 		var binders []string
-		for _, name := range x.Vars {
-			s, gt := sc.parseSpecType(x.Type)
+		for vi, name := range x.Vars {
+			s, gt := sc.parseSpecType(x.Types[vi])
 			bn := th.freshName(name)
 			bn = strings.ReplaceAll(bn, "!", "?")
 			c.bound[name] = Val{bn, s, gt}
@@ -484,8 +484,8 @@ func (fv *FuncVC) specCall(x *SCall, sc *SpecScope) Val {
 			case a.S == SRef && a.GoT != nil:
 				if mt, ok := types.Unalias(a.GoT).Underlying().(*types.Map); ok {
 					ks, vs := th.sortOf(mt.Key()), th.sortOf(mt.Elem())
-					_, _, c := fv.declMapHeaps(ks, vs)
-					return Val{mkIte(mkEq(a.T, "nil"), "0", sx("select", sc.heap(c), a.T)), SInt, it}
+					d, _, c := fv.declMapHeaps(ks, vs)
+					return Val{mkIte(mkEq(a.T, "nil"), "0", sx(c, sx("select", sc.heap(d), a.T))), SInt, it}
 				}
 			}
 			specFail("len of %s", a.S)
@@ -517,6 +517,20 @@ func (fv *FuncVC) specCall(x *SCall, sc *SpecScope) Val {
 			ks, vs := th.sortOf(mt.Key()), th.sortOf(mt.Elem())
 			d, _, _ := fv.declMapHeaps(ks, vs)
 			return Val{sx("select", sc.heap(d), m.T), arraySort(ks, SBoolS), types.NewMap(mt.Key(), bt)}
+		case "card":
+			a := args()[0]
+			mt, ok := a.GoT.(*types.Map)
+			if !ok || !isArraySort(a.S) {
+				specFail("card() expects a set")
+			}
+			return Val{sx(fv.cardFun(th.sortOf(mt.Key())), a.T), SInt, it}
+		case "tr":
+			fv.cardFun(SInt)
+			return Val{sx("tr$Int", args()[0].T), SBoolS, bt}
+		case "within", "full":
+			a := args()
+			fv.cardFun(SInt)
+			return Val{sx(id.Name+"$Int", a[0].T, a[1].T), SBoolS, bt}
 		case "ite":
 			a := args()
 			return Val{mkIte(a[0].T, a[1].T, a[2].T), a[1].S, a[1].GoT}
@@ -561,6 +575,61 @@ func (fv *FuncVC) specCall(x *SCall, sc *SpecScope) Val {
 				specFail("second(): not a two-result call")
 			}
 			return fv.lastSpecResults[1]
+		case "framedField", "framedElems", "framedMap", "framedGhost":
+			// objects that existed at function entry still have their entry value in the given heap:
+			// framedField(T, f): field f of every *T; framedElems(T): elements of every []T;
+			// framedMap(K, V): every map[K]V
+			var h string
+			switch id.Name {
+			case "framedField":
+				_, T := sc.parseSpecType(x.Args[0].String())
+				stt, ok := T.Underlying().(*types.Struct)
+				if !ok {
+					specFail("framedField: %s is not a struct", x.Args[0].String())
+				}
+				fname := x.Args[1].String()
+				found := false
+				for i := 0; i < stt.NumFields(); i++ {
+					if stt.Field(i).Name() == fname {
+						h = fv.declFieldHeap(th.sortOf(T), fname, th.sortOf(stt.Field(i).Type()))
+						found = true
+					}
+				}
+				if !found {
+					specFail("framedField: no field %s", fname)
+				}
+			case "framedElems":
+				es, _ := sc.parseSpecType(x.Args[0].String())
+				h = fv.declSliceHeap(es)
+			case "framedGhost":
+				h = "G$" + x.Args[0].(*SStrLit).V
+				fv.heapDecl(h, arraySort(SRef, SInt))
+			case "framedMap":
+				ks, _ := sc.parseSpecType(x.Args[0].String())
+				vs, _ := sc.parseSpecType(x.Args[1].String())
+				d, v, _ := fv.declMapHeaps(ks, vs)
+				now1, then1 := sc.heap(d), fv.getHeap(fv.entry, d)
+				now2, then2 := sc.heap(v), fv.getHeap(fv.entry, v)
+				al := fv.getHeap(fv.entry, "alloc")
+				return Val{fmt.Sprintf("(forall ((r Ref)) (! (=> (select %s r) (and (= (select %s r) (select %s r)) (= (select %s r) (select %s r)))) :pattern ((select %s r)) :pattern ((select %s r))))", al, now1, then1, now2, then2, now1, now2), SBoolS, bt}
+			}
+			now, then := sc.heap(h), fv.getHeap(fv.entry, h)
+			al := fv.getHeap(fv.entry, "alloc")
+			if now == then {
+				return Val{"true", SBoolS, bt}
+			}
+			return Val{fmt.Sprintf("(forall ((r Ref)) (! (=> (select %s r) (= (select %s r) (select %s r))) :pattern ((select %s r))))", al, now, then, now), SBoolS, bt}
+		case "allocated", "fresh":
+			// allocated(x): x is an allocated object now; fresh(x): x was not allocated at function entry
+			a := args()[0]
+			t := a.T
+			if a.S == SSlice {
+				t = sx("sl_ref", a.T)
+			}
+			if id.Name == "allocated" {
+				return Val{sx("select", sc.heap("alloc"), t), SBoolS, bt}
+			}
+			return Val{mkNot(sx("select", fv.getHeap(fv.entry, "alloc"), t)), SBoolS, bt}
 		case "held":
 			// held(x): the mutex guarding x's fields is held by the current goroutine
 			a := args()[0]
